@@ -19,6 +19,7 @@ from . import common  # noqa: F401
 ID = "C19"
 LEVEL = "exploration"
 BATCH = 25
+PROBES_EXPECTED = ['probe:nested-project', 'probe:several-projects', 'probe:includes', 'probe:explicit-rename', 'walk_dirs']
 TIERS = {"quick": {"runs": 5000, "wall": 50}, "thorough": {"runs": 250000, "wall": 840}}
 RULE = ("each run draws a directory tree (IDF root, components/**, projects with CMakeLists.txt project() present / commented / indented / absent, "
         "nested and sibling projects reusing option names, orphan directories), sdkconfig.rename and sdkconfig.defaults*/sdkconfig.ci* files, a seeded "
